@@ -321,8 +321,51 @@ def gen_pole_enclosed(rng, size):
 
 
 CLASSIC = (None, None, None)
+def _rot_to(q, target):
+    """rotation matrix taking the unit vector q to the unit vector target"""
+    v = np.cross(q, target)
+    sn, cs = float(np.linalg.norm(v)), float(np.dot(q, target))
+    if sn < 1e-12:
+        return np.eye(3) if cs > 0 else np.diag([1.0, -1.0, -1.0])
+    k = v / sn
+    Kx = np.array([[0, -k[2], k[1]], [k[2], 0, -k[0]], [-k[1], k[0], 0]])
+    return np.eye(3) + sn * Kx + (1 - cs) * (Kx @ Kx)
+
+
+def gen_pole_large(rng):
+    """LARGE faces (circumradius 40-85 degrees, convex, inside a hemisphere, every edge < 180 degrees)
+    with the pole anywhere inside: near a corner, near an edge, centred; corners on both sides of the
+    equator; either pole; listed counter-clockwise or clockwise"""
+    n = rng.randint(3, 8)
+    rad = math.radians(rng.uniform(40, 85))
+    f = gnomonic(rng, (0.0, 0.0), n, rad, rng.uniform(0.5, 1.0))
+    P = [xyz_of(*c) for c in f]
+    cen = np.sum(P, axis=0)
+    cen /= np.linalg.norm(cen)
+    where = rng.choice(["corner", "edge", "centre", "anywhere"])
+    k = rng.randrange(n)
+    if where == "corner":
+        q = P[k] * rng.uniform(0.85, 0.97) + cen * rng.uniform(0.03, 0.15)
+    elif where == "edge":
+        mid = P[k] + P[(k + 1) % n]
+        q = mid / np.linalg.norm(mid) * rng.uniform(0.85, 0.97) + cen * rng.uniform(0.03, 0.15)
+    elif where == "centre":
+        q = cen
+    else:
+        w = [rng.random() for _ in range(n)]
+        q = sum(wi * p for wi, p in zip(w, P))
+    q = q / np.linalg.norm(q)
+    sgn = rng.choice([1, -1])
+    R = _rot_to(q, np.array([0.0, 0.0, float(sgn)]))
+    spin = rng.uniform(0, TWO_PI)
+    Rz = np.array([[math.cos(spin), -math.sin(spin), 0], [math.sin(spin), math.cos(spin), 0], [0, 0, 1]])
+    out = [lonlat_of(Rz @ (R @ p)) for p in P]
+    return [(round(lo, 13), round(la, 13)) for lo, la in out], "large/" + where
+
+
+CLASSIC = (None, None, None)
 GENS = [("generic", 5), ("bulge", 2), ("meridian", 3), ("pole-corner", 2), ("pole-enclosed", 3), ("near-pole", 2),
-        ("equator-corner", 2)]
+        ("equator-corner", 2), ("pole-large", 2)]
 
 
 def gen_face(rng, big_only=False):
@@ -343,10 +386,18 @@ def gen_face(rng, big_only=False):
             f, sub = gen_equator_corner(rng, size)
         elif kind == "pole-corner":
             f, sub = gen_pole_corner(rng, size)
+        elif kind == "pole-large":
+            f, sub = gen_pole_large(rng)
         else:
             f, sub = gen_pole_enclosed(rng, size)
         f = [(float(lo), float(la)) for lo, la in f]
         if admissible(f):
+            if kind == "pole-large":
+                mn, ms = pole_dets(f)
+                if max(mn, ms) <= pole_margin_of(f):        # the pole must really be inside
+                    continue
+                f = rotate(rng, f)
+                return (f[::-1], "pole-enclosed/" + sub + "/cw") if rng.random() < 0.5 else (f, "pole-enclosed/" + sub + "/ccw")
             return rotate(rng, f), kind + ("/" + sub if sub else "")
         GEN_REJECTS[kind + (":classic" if size[0] is None else ":" + size_bucket(2 * size[0]))] += 1
     raise RuntimeError("generator could not produce an admissible face")
@@ -354,6 +405,27 @@ def gen_face(rng, big_only=False):
 
 from collections import Counter as _Counter
 GEN_REJECTS = _Counter()
+
+
+def gen_pole_opposite_meanz(rng, count):
+    """large pole-enclosing faces whose corner-mean lies in the OTHER hemisphere (the pole close to a
+    corner or an edge, the remaining corners past the equator): 'which pole' cannot be read off the
+    corners' mean latitude.  Both poles, both orientations, 3..8 corners."""
+    out = []
+    while len(out) < count:
+        f, sub = gen_pole_large(rng)
+        f = [(float(lo), float(la)) for lo, la in f]
+        if not admissible(f):
+            continue
+        mn, ms = pole_dets(f)
+        if max(mn, ms) <= pole_margin_of(f):
+            continue
+        sgn = 1 if mn > ms else -1
+        if sgn * sum(math.sin(math.radians(la)) for _, la in f) >= -0.02:
+            continue
+        f = rotate(rng, f)
+        out.append((f[::-1], "pole-enclosed/opposite-meanz/cw") if rng.random() < 0.5 else (f, "pole-enclosed/opposite-meanz/ccw"))
+    return out
 
 
 def gen_directed(rng, n_base):
@@ -657,10 +729,15 @@ def judge(ctx, face, kind, obs, form=None):
     form = form or PLAIN
     d = ctx.driver
     box, view = obs
-    cl = classify(face, kind)
+    cw = kind.endswith("/cw")
+    # classification and oracle work on the counter-clockwise listing (the verdict is about the face as
+    # a set); the implementation and the model get the corners in the order supplied
+    cl = classify(face[::-1] if cw else face, kind)
     inp = dict(face=[list(c) for c in face], kind=kind, classes=cl, form=form)
     key = (tuple(map(tuple, face)), tuple(sorted(form.items())))
     P = exact_positions(face, form)
+    if cw:
+        P = P[::-1]
     diam = diameter(P)
     # relative tightness: an absolute 1e-9 rad checks nothing on a 1e-7 rad face.  Near a pole the
     # implementation's arcsin(z) loses digits (conditioning 1/distance-to-pole): float evaluation, absorbed
@@ -702,6 +779,8 @@ def judge(ctx, face, kind, obs, form=None):
                  inp, dict(bounds=ib), None, ["corners"])
         return
     toks = ["1", str(K), enc_float(tol), enc_float(0.1 * pole_margin_of(face)), str(len(face))]
+    if cw:
+        ctx.hit("orientation:cw")
     for (lo, la, x, y, z) in view:
         toks += [enc_float(v) for v in (lo, la, x, y, z)]
     for p in oracle_xyz:
@@ -793,6 +872,9 @@ def run(ctx):
                 "with a corner exactly at a pole (nominal pole longitude adjacent / 0 / random), faces enclosing a pole "
                 "(off-centre, regular and irregular rings, rings with a corner on longitude 0); random traversal start; "
                 "a directed stream of faces across longitude 0 / 180 listed from every start corner in both orientations; "
+                "LARGE pole-enclosing faces (circumradius 40-85 deg, convex, inside a hemisphere) with the pole near a corner / near an "
+                "edge / centred / anywhere, corners on both sides of the equator, either pole, listed counter-clockwise or clockwise, "
+                "plus a stream of such faces whose corner mean lies in the other hemisphere; "
                 "the FORM of the coordinate input is drawn per batch: dtype float64/float32/int64/int32/Python ints (integer forms on "
                 "whole-degree lattice faces), construction by from_topology / open_grid(latlon=True) / open_grid(xyz, radius 1, 6371, 0.25) / "
                 "from_dataset, longitudes in [-180,180) or [0,360), with or without normalize_cartesian_coordinates(); the oracle judges against "
@@ -821,6 +903,9 @@ def run(ctx):
         fm = dict(PLAIN, dtype=dt, path=path, lon=rng.choice(["pm180", "0_360"]))
         run_faces(ctx, [lattice_face(rng) for _ in range(ctx.n(12, 120))], form=fm)
     run_faces(ctx, gen_directed(rng, ctx.n(24, 400)), rng=rng)
+    # pole-enclosing faces whose corners lie mostly in the other hemisphere (always run, plain + drawn forms)
+    run_faces(ctx, gen_pole_opposite_meanz(rng, ctx.n(24, 240)))
+    run_faces(ctx, gen_pole_opposite_meanz(rng, ctx.n(24, 240)), rng=rng)
     B = 24
     for _ in range(ctx.n(1500, 60000) // B):
         fm = pick_form(rng)
